@@ -1,6 +1,7 @@
 package main
 
 import (
+	"sync/atomic"
 	"encoding/json"
 	"flag"
 	"fmt"
@@ -249,6 +250,16 @@ func runC13(c *runCtx, only string) {
 				time.Sleep(time.Second) // a loaded machine is not a wedged kernel
 				ok, why = srv.Healthy()
 			}
+			if ok {
+				if dok, dwhy := dispatchAlive(srv); !dok && srv.Alive() {
+					c.rep.Hit("dispatch-probe-failed-after-batch")
+					_ = dwhy
+					srv.Kill()
+					died = true
+				} else if dok {
+					c.rep.Hit("dispatch-probe-ok")
+				}
+			}
 			if !ok {
 				if srv.Alive() {
 					c.violate("wedged:after-batch", fmt.Sprintf("health probe failed 4 times over 4 s (%s) after inputs %v although the process is alive", why, names(group)), map[string]any{"inputs": names(group)})
@@ -317,6 +328,9 @@ func (c *runCtx) attribute(in Input) {
 		}
 	} else if ok, _ := s.Healthy(); !ok {
 		phase = "wedged"
+	} else if dok, dwhy := dispatchAlive(s); !dok && s.Alive() {
+		c.violate(fmt.Sprintf("wedged:dispatch|%s", in.Name), fmt.Sprintf("input %q: the server answers requests but no longer dispatches tasks (%s)", in.Name, dwhy), map[string]any{"input": in.Name, "phase": "dispatch-wedged"})
+		return
 	}
 	site := ""
 	if phase != "" {
@@ -346,6 +360,37 @@ func (c *runCtx) attribute(in Input) {
 	if !s.Alive() {
 		c.violate(fmt.Sprintf("crash:%s|%s", s.PanicSite(), in.Name), fmt.Sprintf("input %q: the server dies after a restart on the same database at %s :: %s", in.Name, s.PanicSite(), s.LogTail()), map[string]any{"input": in.Name, "phase": "after-restart"})
 	}
+}
+
+var probeSeq int64
+
+// dispatchAlive: the dispatch path still works — a promise routed to a listener of the poll transport gets its
+// invocation message delivered (the API answering says nothing about the background coroutines).
+func dispatchAlive(s *Server) (bool, string) {
+	n := atomic.AddInt64(&probeSeq, 1)
+	group := fmt.Sprintf("c13probe%d", n)
+	l := listen(s.pollAddr, group, "w")
+	defer l.stop()
+	for attempt := 0; attempt < 2; attempt++ {
+		id := fmt.Sprintf("probe.%d.%d.%d", os.Getpid(), n, attempt)
+		rp := s.JSON("POST", "/promises", nil, map[string]any{"id": id, "timeout": time.Now().UnixMilli() + 600_000, "tags": map[string]string{"resonate:invoke": "poll://" + group + "/w"}})
+		if rp.Err != nil || rp.Status != 201 {
+			return false, fmt.Sprintf("probe promise refused: %d %v", rp.Status, rp.Err)
+		}
+		deadline := time.Now().Add(8 * time.Second)
+		for time.Now().Before(deadline) {
+			for _, m := range l.all() {
+				if strings.Contains(m, "__invoke:"+id) {
+					return true, ""
+				}
+			}
+			if !s.Alive() {
+				return false, "process exited"
+			}
+			time.Sleep(50 * time.Millisecond)
+		}
+	}
+	return false, "two routed promises created 8 s apart never got their invocation message delivered to a connected listener"
 }
 
 // confirm re-sends one input to a fresh server (fresh database).
